@@ -183,6 +183,21 @@ Theorem C18_keyval : forall mcomma meq pol dflt extract lm nl d,
     d = fold_left (kv_add pol) (somes po) [].
 Proof. exact parse_keyval_spec. Qed.
 
+(** what that fold stores under a key, per policy ([values_of k ps]: the values
+    given for [k], in order): first / last value; all entries concatenated *)
+Theorem C18_keyval_first : forall k ps,
+  kv_lookup k (fold_left (kv_add PFirst) ps []) = hd_error (values_of k ps).
+Proof. exact kv_first_spec. Qed.
+
+Theorem C18_keyval_last : forall k ps,
+  kv_lookup k (fold_left (kv_add PLast) ps []) = hd_error (rev (values_of k ps)).
+Proof. exact kv_last_spec. Qed.
+
+Theorem C18_keyval_concat : forall k ps,
+  opt_items (kv_lookup k (fold_left (kv_add PConcat) ps [])) = concat (map node_items (values_of k ps)) /\
+  (kv_lookup k (fold_left (kv_add PConcat) ps []) = None <-> values_of k ps = []).
+Proof. exact kv_concat_spec. Qed.
+
 (** ** Non-vacuity and the F10 witness (fixed behaviour) *)
 
 Definition c (p : nat) (s : str) : option node := Some (NChars p (p + length s) text_mode s).
@@ -248,3 +263,6 @@ Print Assumptions C18_split_at_node_all.
 Print Assumptions C18_split_at_node_exact_count_refuted.
 Print Assumptions C18_filter.
 Print Assumptions C18_keyval.
+Print Assumptions C18_keyval_first.
+Print Assumptions C18_keyval_last.
+Print Assumptions C18_keyval_concat.
